@@ -55,6 +55,14 @@ func runC13(idx int, rng *rand.Rand, tier string) []Case {
 	for i := range all {
 		all[i] = genResult(rng, uint64(i), "atk", rng.Intn(4) == 0)
 	}
+	smallTied := idx%4 == 2 && n <= 30
+	if smallTied {
+		// few results with repeated, exactly equal latencies: every sample is its own centroid in the
+		// latency digest, so even the estimated percentiles do not depend on the order of arrival
+		for i := range all {
+			all[i].Latency = []time.Duration{time.Millisecond, 2 * time.Millisecond, 9 * time.Millisecond}[rng.Intn(3)]
+		}
+	}
 	if idx%2 == 1 {
 		// a dense attack: requests start within two seconds and take up to ten, so the request that
 		// ends last is usually not the one that started last
@@ -153,7 +161,7 @@ func runC13(idx int, rng *rand.Rand, tier string) []Case {
 			return false
 		}
 		if strip {
-			a, b = canonReport(a), canonReport(b)
+			a, b = canonReport(a, !smallTied), canonReport(b, !smallTied)
 		}
 		return bytes.Equal(a, b)
 	}
@@ -180,14 +188,14 @@ func runC13(idx int, rng *rand.Rand, tier string) []Case {
 }
 
 // canonReport removes the estimated percentiles and sorts the error set of a JSON report.
-func canonReport(b []byte) []byte {
+func canonReport(b []byte, dropPercentiles bool) []byte {
 	var m map[string]interface{}
 	d := json.NewDecoder(bytes.NewReader(b))
 	d.UseNumber()
 	if err := d.Decode(&m); err != nil {
 		return b
 	}
-	if l, ok := m["latencies"].(map[string]interface{}); ok {
+	if l, ok := m["latencies"].(map[string]interface{}); ok && dropPercentiles {
 		for _, k := range []string{"50th", "90th", "95th", "99th"} {
 			delete(l, k)
 		}
